@@ -178,7 +178,10 @@ def witness(kind, role, op_txt, what):
     if kind == "Binary":
         o = op_txt or "+"
         progs += [f"select {{v = (g 1 (-b {o} c) 2)}}", f"select {{v = (g 1 (b {o} (-c)) 2)}}", f"select {{v = ((b {o} c) {o} d)}}", f"select {{v = (b {o} (c {o} d))}}",
-                  f"select {{v = (g 1 (+b {o} c) 2)}}"]
+                  f"select {{v = (g 1 (+b {o} c) 2)}}",
+                  # the node as left / right operand of an enclosing binary operator inside a call argument (incoming operand side Left / Right)
+                  f"select {{v = (g 1 (-b {o} c || d) 2)}}", f"select {{v = (g 1 (-b {o} c {o} d) 2)}}", f"select {{v = (g 1 (d || -b {o} c) 2)}}",
+                  f"select {{v = (g 1 (-b {o} c || d || e) 2)}}", f"sort (-b {o} c || d)", f"filter (==b {o} c || d)"]
     if kind == "Unary":
         o = op_txt or "-"
         progs += [f"select {{v = ({o}(b ** c) ** d)}}", f"select {{v = d ** ({o}(b ** c))}}", f"select {{v = ({o}(b + c)) + d}}", f"select {{v = (g 1 ({o}(-b)) 2)}}"]
@@ -212,7 +215,7 @@ def run(R, tier, seed, drv_path):
     t0 = time.time()
     fmtparen.setup_enums()
     C = Ctx()
-    funcs = kernels.load(r"codegen/ast.rs[^>]*>::write$|^write_within$|^binding_strength$|codegen/mod.rs[^>]*>::clone$")
+    funcs = kernels.load(r"codegen/ast.rs[^>]*>::write($|::promoted)|^write_within($|::promoted)|^binding_strength($|::promoted)|codegen/mod.rs[^>]*>::(clone|eq|ne)$")
     kname = [n for n, f in funcs.items() if n.endswith("::write") and f.args[0][1].endswith("pr::ExprKind")]
     ename = [n for n, f in funcs.items() if n.endswith("::write") and f.args[0][1].endswith("pr::Expr")]
     if len(kname) != 1 or len(ename) != 1 or "write_within" not in funcs:
